@@ -175,4 +175,9 @@ wide.append(job("c08.dbscan", secs=90, n=18, sym=2, mp=3, tolc=4, kind=2, B=24))
 wide.append(job("c08.dbscan", secs=60, n=33, sym=1, mp=3, tolc=5, kind=-1, B=40))
 quick += wide
 thorough += wide
+# ball tree jobs: see registry/c07.py (the sphere bound carries a slack of a few ulps since /repo d8cfbed)
+for _j in quick + thorough:
+    _uses_ball = (_j["h"] == "c08.dbscan" and _j["p"].get("kind", -1) in (0, -1)) or (_j["h"] == "c08.optics" and _j["p"].get("kind", 1) == 0) or (_j["h"] == "c08.optics_index" and _j["p"].get("pair", 0) in (0, 2))
+    if _uses_ball and "inexact" not in _j["allow"]:
+        _j["allow"].append("inexact")
 REG = {"C08": {"quick": quick, "thorough": thorough}}
